@@ -169,12 +169,8 @@ def expected_markers(m, table, query_genes, ref_genes, min_markers,
         return {'status': 'must_error', 'markers': {},
                 'why': f'markers {sorted(used_unknown)} unknown to reference'}
     if unknown:
-        # the table names a gene the reference does not have, but no
-        # consulted parent would use it: the statement says such a table
-        # ends the run with an error; a run that ignores the unusable entry
-        # is not judged
-        res['status'] = 'unjudged'
-        res['why'] = f'table lists {sorted(unknown)} unknown to reference'
+        return {'status': 'must_error', 'markers': {},
+                'why': f'table lists {sorted(unknown)} unknown to reference'}
     return res
 
 
